@@ -293,6 +293,8 @@ class Ctx(object):
             return SSeq(z3.Const(n, v.t.sort()), v.wrap, v.unwrap)
         if isinstance(v, SU):
             return self.fresh_u(base, v.t.sort(), register=False)
+        if isinstance(v, sym.SLow):
+            return sym.SLow(z3.BitVec(self.fresh_name(base), v.t.size()))
         raise Unsupported('cannot havoc value of kind %s' % type(v).__name__)
 
 
